@@ -123,13 +123,7 @@ func LayerConvertFunc(opts ...estargz.Option) converter.ConvertFunc {
 			return nil, err
 		}
 		newDesc := desc
-		if uncompress.IsUncompressedType(newDesc.MediaType) {
-			if images.IsDockerType(newDesc.MediaType) {
-				newDesc.MediaType += ".gzip"
-			} else {
-				newDesc.MediaType += "+gzip"
-			}
-		}
+		newDesc.MediaType = ConvertMediaTypeToGzip(newDesc.MediaType)
 		newDesc.Digest = w.Digest()
 		newDesc.Size = n
 		if newDesc.Annotations == nil {
@@ -143,4 +137,25 @@ func LayerConvertFunc(opts ...estargz.Option) converter.ConvertFunc {
 		newDesc.Annotations[estargz.StoreUncompressedSizeAnnotation] = fmt.Sprintf("%d", uncompressedSize)
 		return &newDesc, nil
 	}
+}
+
+// ConvertMediaTypeToGzip returns the media type of the gzip-compressed form of the layer
+// media type mt. Uncompressed and zstd-compressed layer types are changed to the gzip one
+// of the same family (the converted blob is always gzip); other types are returned as they are.
+func ConvertMediaTypeToGzip(mt string) string {
+	switch mt {
+	case ocispec.MediaTypeImageLayerZstd:
+		return ocispec.MediaTypeImageLayerGzip
+	case ocispec.MediaTypeImageLayerNonDistributableZstd: //nolint:staticcheck // deprecated
+		return ocispec.MediaTypeImageLayerNonDistributableGzip //nolint:staticcheck // deprecated
+	case images.MediaTypeDockerSchema2LayerZstd:
+		return images.MediaTypeDockerSchema2LayerGzip
+	}
+	if uncompress.IsUncompressedType(mt) {
+		if images.IsDockerType(mt) {
+			return mt + ".gzip"
+		}
+		return mt + "+gzip"
+	}
+	return mt
 }
